@@ -4,6 +4,12 @@ from .roles import Roles, role_effects, INNER, HTXFILE, HTXCACHE
 from .util import (calls_to, origins, where, is_call_to, lookup_split, region_dominated, find_bool_split, chase,
                    in_cycle, const_origin)
 from .fields import pf, fq
+
+
+def _LC(prog, R):
+    from .c01 import lookup_components
+    return lookup_components(prog, R)
+
 from . import c04bitmap
 
 EXPLANATION = (
@@ -156,7 +162,7 @@ def _check_own(ctx):
         ctx.touch(ovw, len(ovw.blocks))
         for b, t in calls_to(prog, put, target_fn=ovw):
             o = origins(prog, put, t["args"][1], at=b)
-            ctx.check(bool(o) and all(is_call_to(prog, put, x, lookup) and x.proj[-1:] == ("f:0",) for x in o), "overwrite-links", "of-found-key",
+            ctx.check(bool(o) and all(is_call_to(prog, put, x, lookup) and x.proj[-1:] == (_LC(prog, R)[0],) for x in o), "overwrite-links", "of-found-key",
                       "overwrite is applied to an offset that is not the found key record (%s)" % o, where=where(put, b))
             v = origins(prog, put, t["args"][2], at=b)
             ctx.check(bool(v) and all(x.kind == "param" and x.data == 3 for x in v), "overwrite-links", "value-is-callers-value",
@@ -196,7 +202,7 @@ def _check_own(ctx):
 
     # ---- (2)/(3) delete ------------------------------------------------------------------------
     kread = [(b, t) for b, t in calls_to(prog, dele, target_fn=R.need("KEY_READ")) if b in r_del]
-    found_reads = [(b, t) for b, t in kread if all(is_call_to(prog, dele, x, lookup) and x.proj[-1:] == ("f:0",) for x in origins(prog, dele, t["args"][1], at=b))]
+    found_reads = [(b, t) for b, t in kread if all(is_call_to(prog, dele, x, lookup) and x.proj[-1:] == (_LC(prog, R)[0],) for x in origins(prog, dele, t["args"][1], at=b))]
     ctx.check(len(found_reads) == 1, "delete-links", "reads-found-record", "delete does not read the found key record exactly once", where=where(dele))
 
     def from_found(os_, field):
@@ -217,11 +223,11 @@ def _check_own(ctx):
     for b, t in kf:
         o = origins(prog, dele, t["args"][1], at=b)
         n_origin += 1
-        ctx.check(bool(o) and all(is_call_to(prog, dele, x, lookup) and x.proj[-1:] == ("f:0",) for x in o), "delete-links", "frees-found-key",
+        ctx.check(bool(o) and all(is_call_to(prog, dele, x, lookup) and x.proj[-1:] == (_LC(prog, R)[0],) for x in o), "delete-links", "frees-found-key",
                   "the key record freed by delete is not the found one (%s)" % o, where=where(dele, b))
     # head arm / inner arm split on previous.is_zero()
     from .util import zero_splits
-    ps = zero_splits(prog, dele, lambda a: all(is_call_to(prog, dele, x, lookup) and x.proj[-1:] == ("f:1",) for x in a))
+    ps = zero_splits(prog, dele, lambda a: all(is_call_to(prog, dele, x, lookup) and x.proj[-1:] == (_LC(prog, R)[1],) for x in a))
     if ctx.check(len(ps) == 1, "delete-links", "head-or-inner-split", "cannot find the `previous.is_zero()` split in delete", where=where(dele)):
         head_e, inner_e = ps[0]["true"], ps[0]["false"]
         r_head, r_inner = region_dominated(dele, head_e), region_dominated(dele, inner_e)
@@ -231,7 +237,7 @@ def _check_own(ctx):
         ctx.check(ok and not dele.success_reach_return(head_e, [b for b, _ in hws]), "delete-links", "head-unlink",
                   "deleting the first record of a chain does not make the bucket head point at the deleted record's successor", where=where(dele, head_e))
         # inner arm
-        prd = [(b, t) for b, t in kread if b in r_inner and all(is_call_to(prog, dele, x, lookup) and x.proj[-1:] == ("f:1",) for x in origins(prog, dele, t["args"][1], at=b))]
+        prd = [(b, t) for b, t in kread if b in r_inner and all(is_call_to(prog, dele, x, lookup) and x.proj[-1:] == (_LC(prog, R)[1],) for x in origins(prog, dele, t["args"][1], at=b))]
         stores = []
         for b, blk in enumerate(dele.blocks):
             if b in r_inner:
